@@ -36,8 +36,8 @@ var (
 	ErrSynthOpen  = errors.New("synthetic open error")
 )
 
-// FileSpec is a synthetic zip.File: everything Path, Lstat and Open return is a field.
-type FileSpec struct {
+// ZipFileSpec is a synthetic zip.File: everything Path, Lstat and Open return is a field.
+type ZipFileSpec struct {
 	P        string
 	LstatErr bool
 	Mode     os.FileMode // type bits decide regular / dir / symlink / other
@@ -46,31 +46,31 @@ type FileSpec struct {
 	Content  []byte // what Open() yields up to EOF
 }
 
-func (f FileSpec) Path() string { return f.P }
-func (f FileSpec) Lstat() (os.FileInfo, error) {
+func (f ZipFileSpec) Path() string { return f.P }
+func (f ZipFileSpec) Lstat() (os.FileInfo, error) {
 	if f.LstatErr {
 		return nil, ErrSynthLstat
 	}
-	return synthInfo{f}, nil
+	return zipSynthInfo{f}, nil
 }
-func (f FileSpec) Open() (io.ReadCloser, error) {
+func (f ZipFileSpec) Open() (io.ReadCloser, error) {
 	if f.OpenErr {
 		return nil, ErrSynthOpen
 	}
 	return io.NopCloser(bytes.NewReader(f.Content)), nil
 }
 
-type synthInfo struct{ f FileSpec }
+type zipSynthInfo struct{ f ZipFileSpec }
 
-func (i synthInfo) Name() string       { return filepath.Base(i.f.P) }
-func (i synthInfo) Size() int64        { return i.f.Size }
-func (i synthInfo) Mode() os.FileMode  { return i.f.Mode }
-func (i synthInfo) ModTime() time.Time { return time.Time{} }
-func (i synthInfo) IsDir() bool        { return i.f.Mode.IsDir() }
-func (i synthInfo) Sys() interface{}   { return nil }
+func (i zipSynthInfo) Name() string       { return filepath.Base(i.f.P) }
+func (i zipSynthInfo) Size() int64        { return i.f.Size }
+func (i zipSynthInfo) Mode() os.FileMode  { return i.f.Mode }
+func (i zipSynthInfo) ModTime() time.Time { return time.Time{} }
+func (i zipSynthInfo) IsDir() bool        { return i.f.Mode.IsDir() }
+func (i zipSynthInfo) Sys() interface{}   { return nil }
 
-// ModeClass is the abstraction the model uses: 0 regular, 1 dir, 2 symlink, 3 other.
-func ModeClass(m os.FileMode) int {
+// ZipModeClass is the abstraction the model uses: 0 regular, 1 dir, 2 symlink, 3 other.
+func ZipModeClass(m os.FileMode) int {
 	switch {
 	case m.IsDir():
 		return 1
@@ -84,7 +84,7 @@ func ModeClass(m os.FileMode) int {
 }
 
 // ToZipFiles converts to the interface slice zip.Create / zip.CheckFiles take.
-func ToZipFiles(fs []FileSpec) []modzip.File {
+func ToZipFiles(fs []ZipFileSpec) []modzip.File {
 	out := make([]modzip.File, len(fs))
 	for i, f := range fs {
 		out[i] = f
@@ -97,11 +97,11 @@ func ToZipFiles(fs []FileSpec) []modzip.File {
 // path elements: plain, case variants, fold-equivalent runes (K k U+212A, S s U+017F),
 // reserved Windows names, go.mod spellings, vendor, VCS names, and ill-formed ones
 var (
-	elemPlain    = []string{"a", "b", "c", "A", "B", "x.go", "X.go", "y.go", "main.go", "pkg", "Pkg", "doc.txt", "k", "K", "\u212a", "s", "S", "\u017f", "sk", "SK", "S\u212a", "\u017fk", "\u00e9", "\u00c9", "\u65e5\u672c", "a b", "a+b", "~x", "x~1"}
-	elemSpecial  = []string{"go.mod", "GO.MOD", "Go.Mod", "go.MOD", "vendor", "Vendor", "modules.txt", "LICENSE", "license", "LICENSE.txt", ".hg_archival.txt", ".git", ".hg", ".svn", ".bzr", "go.sum", "\u0261o.mod", "go.mod.bak", "g\u00f6.mod"}
-	elemReserved = []string{"con", "CON", "nul.txt", "NUL", "aux", "com1", "COM9.go", "lpt1", "prn.x", "con.a.b", "Aux"}
-	elemBad      = []string{"", ".", "..", "...", "a.", "a\\b", "a:b", "a*", "a?", "a|b", "a\"b", "<a>", "\xff", "a\xc0\x80", "\x00", "a\nb", "a;b", "'a'", "\u00a0", "\u2028"}
-	goModBodies  = []string{
+	zipElemPlain    = []string{"a", "b", "c", "A", "B", "x.go", "X.go", "y.go", "main.go", "pkg", "Pkg", "doc.txt", "k", "K", "\u212a", "s", "S", "\u017f", "sk", "SK", "S\u212a", "\u017fk", "\u00e9", "\u00c9", "\u65e5\u672c", "a b", "a+b", "~x", "x~1"}
+	zipElemSpecial  = []string{"go.mod", "GO.MOD", "Go.Mod", "go.MOD", "vendor", "Vendor", "modules.txt", "LICENSE", "license", "LICENSE.txt", ".hg_archival.txt", ".git", ".hg", ".svn", ".bzr", "go.sum", "\u0261o.mod", "go.mod.bak", "g\u00f6.mod"}
+	zipElemReserved = []string{"con", "CON", "nul.txt", "NUL", "aux", "com1", "COM9.go", "lpt1", "prn.x", "con.a.b", "Aux"}
+	zipElemBad      = []string{"", ".", "..", "...", "a.", "a\\b", "a:b", "a*", "a?", "a|b", "a\"b", "<a>", "\xff", "a\xc0\x80", "\x00", "a\nb", "a;b", "'a'", "\u00a0", "\u2028"}
+	zipGoModBodies  = []string{
 		"module m\n", "module m\n\ngo 1.23\n", "module m\n\ngo 1.23.4\n", "module m\n\ngo 1.24\n", "module m\n\ngo 1.24.0\n",
 		"module m\n\ngo 1.24rc1\n", "module m\n\ngo 1.25.1\n", "module m\n\ngo 1.9\n", "module m\n\ngo 1.240\n", "module m\n\ngo 2.0\n",
 		"module m\ngo v1.24x\n", "module m\ngo 1.24 extra\n", "module m\ngo\n", "module (\n", "go 1.24\ngo 1.23\n", "\xff\xfe", "", "go 1.24\n", "go 1.23\n",
@@ -109,26 +109,26 @@ var (
 	}
 )
 
-// PathElem draws one path element; bad admits ill-formed ones.
-func PathElem(r *rand.Rand, bad bool) string {
+// ZipPathElem draws one path element; bad admits ill-formed ones.
+func ZipPathElem(r *rand.Rand, bad bool) string {
 	k := r.Intn(100)
 	switch {
 	case k < 55:
-		return elemPlain[r.Intn(len(elemPlain))]
+		return zipElemPlain[r.Intn(len(zipElemPlain))]
 	case k < 80:
-		return elemSpecial[r.Intn(len(elemSpecial))]
+		return zipElemSpecial[r.Intn(len(zipElemSpecial))]
 	case k < 90:
-		return elemReserved[r.Intn(len(elemReserved))]
+		return zipElemReserved[r.Intn(len(zipElemReserved))]
 	default:
 		if bad {
-			return elemBad[r.Intn(len(elemBad))]
+			return zipElemBad[r.Intn(len(zipElemBad))]
 		}
-		return elemPlain[r.Intn(len(elemPlain))]
+		return zipElemPlain[r.Intn(len(zipElemPlain))]
 	}
 }
 
-// caseVariant changes the case or the fold class of some letters of s.
-func caseVariant(r *rand.Rand, s string) string {
+// zipCaseVariant changes the case or the fold class of some letters of s.
+func zipCaseVariant(r *rand.Rand, s string) string {
 	rs := []rune(s)
 	if len(rs) == 0 {
 		return s
@@ -155,9 +155,9 @@ func caseVariant(r *rand.Rand, s string) string {
 	return string(rs)
 }
 
-// RelPath draws a slash-separated path of 1..4 elements; hostile admits ill-formed
+// ZipRelPath draws a slash-separated path of 1..4 elements; hostile admits ill-formed
 // elements, unclean and absolute forms.
-func RelPath(r *rand.Rand, hostile bool) string {
+func ZipRelPath(r *rand.Rand, hostile bool) string {
 	n := 1
 	switch k := r.Intn(10); {
 	case k < 3:
@@ -171,7 +171,7 @@ func RelPath(r *rand.Rand, hostile bool) string {
 	}
 	el := make([]string, n)
 	for i := range el {
-		el[i] = PathElem(r, hostile && r.Intn(3) == 0)
+		el[i] = ZipPathElem(r, hostile && r.Intn(3) == 0)
 		if i < n-1 && r.Intn(4) != 0 {
 			// directories mostly from a small set so that files share parents
 			el[i] = pick(r, "a", "b", "A", "pkg", "vendor", "k", "K", "\u212a", "sub", "a/vendor", "vendor/a")
@@ -199,7 +199,7 @@ func RelPath(r *rand.Rand, hostile bool) string {
 	return p
 }
 
-func smallContent(r *rand.Rand) []byte {
+func zipSmallContent(r *rand.Rand) []byte {
 	n := r.Intn(24)
 	b := make([]byte, n)
 	for i := range b {
@@ -208,23 +208,23 @@ func smallContent(r *rand.Rand) []byte {
 	return b
 }
 
-// GoModBody draws the content of a go.mod file: no / old / new / unparsable go versions.
-func GoModBody(r *rand.Rand) []byte { return []byte(goModBodies[r.Intn(len(goModBodies))]) }
+// ZipGoModBody draws the content of a go.mod file: no / old / new / unparsable go versions.
+func ZipGoModBody(r *rand.Rand) []byte { return []byte(zipGoModBodies[r.Intn(len(zipGoModBodies))]) }
 
-func otherMode(r *rand.Rand) os.FileMode {
+func zipOtherMode(r *rand.Rand) os.FileMode {
 	return []os.FileMode{os.ModeNamedPipe | 0o644, os.ModeSocket | 0o644, os.ModeDevice | 0o600, os.ModeDevice | os.ModeCharDevice | 0o600, os.ModeIrregular | 0o644}[r.Intn(5)]
 }
 
-// fileFor makes a FileSpec for path p; wild admits non-regular modes, lstat/open errors
+// zipFileFor makes a ZipFileSpec for path p; wild admits non-regular modes, lstat/open errors
 // and declared sizes that differ from the content.
-func fileFor(r *rand.Rand, p string, wild bool) FileSpec {
-	f := FileSpec{P: p, Mode: 0o644, Content: smallContent(r)}
+func zipFileFor(r *rand.Rand, p string, wild bool) ZipFileSpec {
+	f := ZipFileSpec{P: p, Mode: 0o644, Content: zipSmallContent(r)}
 	base := p
 	if i := strings.LastIndex(p, "/"); i >= 0 {
 		base = p[i+1:]
 	}
 	if strings.EqualFold(base, "go.mod") || r.Intn(40) == 0 {
-		f.Content = GoModBody(r)
+		f.Content = ZipGoModBody(r)
 	}
 	f.Size = int64(len(f.Content))
 	if !wild {
@@ -236,7 +236,7 @@ func fileFor(r *rand.Rand, p string, wild bool) FileSpec {
 	case k < 11:
 		f.Mode = os.ModeSymlink | 0o777
 	case k < 15:
-		f.Mode = otherMode(r)
+		f.Mode = zipOtherMode(r)
 	case k < 16:
 		f.Mode = os.ModeDir | os.ModeSymlink | 0o777 // IsDir and not "exactly a symlink"
 	case k < 20:
@@ -268,15 +268,15 @@ func fileFor(r *rand.Rand, p string, wild bool) FileSpec {
 // ModuleFileList draws a file list for zip.CheckFiles / zip.Create: mostly well-formed
 // module trees, with duplicates, case and fold variants, file-vs-directory clashes, vendor
 // directories, nested modules, odd modes and sizes mixed in.
-func ModuleFileList(r *rand.Rand) []FileSpec {
+func ModuleFileList(r *rand.Rand) []ZipFileSpec {
 	hostile := r.Intn(3) != 0
 	n := r.Intn(11)
 	if r.Intn(10) == 0 {
 		n += 8
 	}
-	var fs []FileSpec
+	var fs []ZipFileSpec
 	if r.Intn(10) < 7 {
-		f := fileFor(r, "go.mod", hostile && r.Intn(4) == 0)
+		f := zipFileFor(r, "go.mod", hostile && r.Intn(4) == 0)
 		f.P = "go.mod"
 		fs = append(fs, f)
 	}
@@ -286,25 +286,25 @@ func ModuleFileList(r *rand.Rand) []FileSpec {
 		case k < 8 && len(fs) > 0: // duplicate
 			p = fs[r.Intn(len(fs))].P
 		case k < 18 && len(fs) > 0: // case / fold variant of an earlier path
-			p = caseVariant(r, fs[r.Intn(len(fs))].P)
+			p = zipCaseVariant(r, fs[r.Intn(len(fs))].P)
 		case k < 24 && len(fs) > 0: // file below an earlier file, or a parent of it as a file
 			q := fs[r.Intn(len(fs))].P
 			if i := strings.LastIndex(q, "/"); i > 0 && r.Intn(2) == 0 {
 				p = q[:i]
 				if r.Intn(3) == 0 {
-					p = caseVariant(r, p)
+					p = zipCaseVariant(r, p)
 				}
 			} else {
-				p = q + "/" + PathElem(r, false)
+				p = q + "/" + ZipPathElem(r, false)
 			}
 		case k < 30:
 			p = pick(r, "vendor/modules.txt", "vendor/a/x.go", "vendor/x.go", "a/vendor/x.go", "a/vendor/b/x.go", "pkg/vendor/vendor.go", "a/vendor/modules.txt", "vendor/vendor/x.go", "vendor/a/vendor/x.go", "xvendor/a/b.go", "a/vendor", "vendor")
 		case k < 36:
 			p = pick(r, "sub/go.mod", "sub/GO.MOD", "sub/x.go", "sub/a/y.go", "a/go.mod", "a/Go.Mod", "A/go.mod", "LICENSE", ".hg_archival.txt", "a/.hg_archival.txt", "GO.MOD", "Go.mod", "go.mod")
 		default:
-			p = RelPath(r, hostile)
+			p = ZipRelPath(r, hostile)
 		}
-		fs = append(fs, fileFor(r, p, hostile && r.Intn(2) == 0))
+		fs = append(fs, zipFileFor(r, p, hostile && r.Intn(2) == 0))
 	}
 	if r.Intn(2) == 0 {
 		r.Shuffle(len(fs), func(i, j int) { fs[i], fs[j] = fs[j], fs[i] })
@@ -315,30 +315,27 @@ func ModuleFileList(r *rand.Rand) []FileSpec {
 // ValidModuleFileList draws a list zip.Create accepts (distinct well-formed paths, regular
 // files with honest sizes, no nested module; a go.mod at the root most of the time, vendor
 // and upper-case directories allowed as long as nothing collides).
-func ValidModuleFileList(r *rand.Rand) []FileSpec {
+func ValidModuleFileList(r *rand.Rand) []ZipFileSpec {
 	n := 1 + r.Intn(8)
-	seen := map[string]bool{}
-	var fs []FileSpec
+	kind := map[string]bool{} // lower-cased path or ancestor -> is a file
+	var fs []ZipFileSpec
 	add := func(p string) {
 		if err := module.CheckFilePath(p); err != nil {
 			return
 		}
-		// no fold-equal path or prefix already present
 		el := strings.Split(p, "/")
 		for i := 1; i <= len(el); i++ {
 			pre := strings.ToLower(strings.Join(el[:i], "/"))
 			isFile := i == len(el)
-			if was, ok := seenKind[pre]; ok && (was || isFile) {
+			if was, ok := kind[pre]; ok && (was || isFile) {
 				return
 			}
 		}
-		_ = seen
 		for i := 1; i <= len(el); i++ {
-			seenKind[strings.ToLower(strings.Join(el[:i], "/"))] = i == len(el)
+			kind[strings.ToLower(strings.Join(el[:i], "/"))] = i == len(el)
 		}
-		fs = append(fs, fileFor(r, p, false))
+		fs = append(fs, zipFileFor(r, p, false))
 	}
-	seenKind = map[string]bool{}
 	if r.Intn(10) < 8 {
 		add("go.mod")
 	}
@@ -350,10 +347,8 @@ func ValidModuleFileList(r *rand.Rand) []FileSpec {
 	return fs
 }
 
-var seenKind map[string]bool
-
 // CreateModuleZip runs zip.Create on the list and returns the archive bytes.
-func CreateModuleZip(m module.Version, files []FileSpec) ([]byte, error) {
+func CreateModuleZip(m module.Version, files []ZipFileSpec) ([]byte, error) {
 	var buf bytes.Buffer
 	if err := modzip.Create(&buf, m, ToZipFiles(files)); err != nil {
 		return nil, err
@@ -361,8 +356,8 @@ func CreateModuleZip(m module.Version, files []FileSpec) ([]byte, error) {
 	return buf.Bytes(), nil
 }
 
-// ModuleVersion draws a module path and version: mostly a valid matching pair.
-func ModuleVersion(r *rand.Rand) module.Version {
+// ZipModuleVersion draws a module path and version: mostly a valid matching pair.
+func ZipModuleVersion(r *rand.Rand) module.Version {
 	if r.Intn(8) != 0 {
 		return []module.Version{
 			{Path: "example.com/m", Version: "v1.2.3"},
@@ -388,39 +383,39 @@ func ModuleVersion(r *rand.Rand) module.Version {
 
 // ---- directory trees -----------------------------------------------------------------
 
-// TreeNode is one directory entry: Kind 0 regular file, 1 directory, 2 dangling symlink,
+// ZipTreeNode is one directory entry: Kind 0 regular file, 1 directory, 2 dangling symlink,
 // 3 named pipe.
-type TreeNode struct {
+type ZipTreeNode struct {
 	Name     string
 	Kind     int
 	Content  []byte
-	Children []*TreeNode
+	Children []*ZipTreeNode
 }
 
-var treeNames = []string{"a", "b", "A", "x.go", "X.go", "y.go", "pkg", "go.mod", "GO.MOD", "Go.Mod", "vendor", "modules.txt", "LICENSE", ".hg_archival.txt", "k", "K", "\u212a", "s", "\u017f", "con", "nul.txt", "a b", "a\\b", "a:b", "\xff", "\u00e9", "doc.txt", "sub", "go.sum", "foo."}
-var treeVCS = []string{".git", ".hg", ".svn", ".bzr"}
+var zipTreeNames = []string{"a", "b", "A", "x.go", "X.go", "y.go", "pkg", "go.mod", "GO.MOD", "Go.Mod", "vendor", "modules.txt", "LICENSE", ".hg_archival.txt", "k", "K", "\u212a", "s", "\u017f", "con", "nul.txt", "a b", "a\\b", "a:b", "\xff", "\u00e9", "doc.txt", "sub", "go.sum", "foo."}
+var zipTreeVCS = []string{".git", ".hg", ".svn", ".bzr"}
 
-// ModuleTree draws the entries of a module directory. plain: only regular files and
+// ZipModuleTree draws the entries of a module directory. plain: only regular files and
 // directories, no VCS directories (the domain of the dir-versus-list comparison).
-func ModuleTree(r *rand.Rand, plain bool) []*TreeNode {
-	var build func(depth int, top bool) []*TreeNode
-	build = func(depth int, top bool) []*TreeNode {
+func ZipModuleTree(r *rand.Rand, plain bool) []*ZipTreeNode {
+	var build func(depth int, top bool) []*ZipTreeNode
+	build = func(depth int, top bool) []*ZipTreeNode {
 		n := r.Intn(5)
 		if top {
 			n = 1 + r.Intn(7)
 		}
 		used := map[string]bool{}
-		var out []*TreeNode
+		var out []*ZipTreeNode
 		for i := 0; i < n; i++ {
-			name := treeNames[r.Intn(len(treeNames))]
+			name := zipTreeNames[r.Intn(len(zipTreeNames))]
 			if !plain && r.Intn(12) == 0 {
-				name = treeVCS[r.Intn(len(treeVCS))]
+				name = zipTreeVCS[r.Intn(len(zipTreeVCS))]
 			}
 			if used[name] {
 				continue
 			}
 			used[name] = true
-			nd := &TreeNode{Name: name}
+			nd := &ZipTreeNode{Name: name}
 			isDirName := name == "a" || name == "b" || name == "A" || name == "pkg" || name == "vendor" || name == "sub" || strings.HasPrefix(name, ".") && name != ".hg_archival.txt" || name == "k" || name == "K"
 			switch {
 			case depth < 3 && (isDirName && r.Intn(4) != 0 || r.Intn(10) == 0):
@@ -431,9 +426,9 @@ func ModuleTree(r *rand.Rand, plain bool) []*TreeNode {
 			case !plain && r.Intn(25) == 0:
 				nd.Kind = 3
 			default:
-				nd.Content = smallContent(r)
+				nd.Content = zipSmallContent(r)
 				if strings.EqualFold(name, "go.mod") {
-					nd.Content = GoModBody(r)
+					nd.Content = ZipGoModBody(r)
 				}
 			}
 			out = append(out, nd)
@@ -449,14 +444,14 @@ func ModuleTree(r *rand.Rand, plain bool) []*TreeNode {
 			}
 		}
 		if !has {
-			t = append(t, &TreeNode{Name: "go.mod", Content: GoModBody(r)})
+			t = append(t, &ZipTreeNode{Name: "go.mod", Content: ZipGoModBody(r)})
 		}
 	}
 	return t
 }
 
-// MaterializeTree creates the entries under dir (which must exist).
-func MaterializeTree(dir string, nodes []*TreeNode) error {
+// ZipMaterializeTree creates the entries under dir (which must exist).
+func ZipMaterializeTree(dir string, nodes []*ZipTreeNode) error {
 	for _, n := range nodes {
 		p := filepath.Join(dir, n.Name)
 		switch n.Kind {
@@ -464,7 +459,7 @@ func MaterializeTree(dir string, nodes []*TreeNode) error {
 			if err := os.Mkdir(p, 0o755); err != nil {
 				return err
 			}
-			if err := MaterializeTree(p, n.Children); err != nil {
+			if err := ZipMaterializeTree(p, n.Children); err != nil {
 				return err
 			}
 		case 2:
@@ -484,13 +479,13 @@ func MaterializeTree(dir string, nodes []*TreeNode) error {
 	return nil
 }
 
-// TreeRegularFiles lists the regular files of the tree in the order filepath.Walk visits
+// ZipTreeRegularFiles lists the regular files of the tree in the order filepath.Walk visits
 // them (entries of a directory sorted by name), as FileSpecs with slash-separated paths.
-func TreeRegularFiles(nodes []*TreeNode) []FileSpec {
-	var out []FileSpec
-	var rec func(prefix string, ns []*TreeNode)
-	rec = func(prefix string, ns []*TreeNode) {
-		s := append([]*TreeNode(nil), ns...)
+func ZipTreeRegularFiles(nodes []*ZipTreeNode) []ZipFileSpec {
+	var out []ZipFileSpec
+	var rec func(prefix string, ns []*ZipTreeNode)
+	rec = func(prefix string, ns []*ZipTreeNode) {
+		s := append([]*ZipTreeNode(nil), ns...)
 		sort.Slice(s, func(i, j int) bool { return s[i].Name < s[j].Name })
 		for _, n := range s {
 			p := prefix + n.Name
@@ -498,7 +493,7 @@ func TreeRegularFiles(nodes []*TreeNode) []FileSpec {
 			case 1:
 				rec(p+"/", n.Children)
 			case 0:
-				out = append(out, FileSpec{P: p, Mode: 0o644, Size: int64(len(n.Content)), Content: n.Content})
+				out = append(out, ZipFileSpec{P: p, Mode: 0o644, Size: int64(len(n.Content)), Content: n.Content})
 			}
 		}
 	}
@@ -508,18 +503,18 @@ func TreeRegularFiles(nodes []*TreeNode) []FileSpec {
 
 // ---- hostile archives ----------------------------------------------------------------
 
-// ArchEntry is one entry of an archive to be written: Declared is the uncompressed size
+// ZipArchEntry is one entry of an archive to be written: Declared is the uncompressed size
 // stored in the headers, Content the data actually stored.
-type ArchEntry struct {
+type ZipArchEntry struct {
 	Name     string
 	Declared uint64
 	Content  []byte
 }
 
-// WriteArchive encodes the entries. Entries whose declared size is honest are written
+// ZipWriteArchive encodes the entries. Entries whose declared size is honest are written
 // normally (deflate) half of the time; the others are stored raw with the headers saying
 // what Declared says (the CRC is that of the content).
-func WriteArchive(r *rand.Rand, entries []ArchEntry) ([]byte, error) {
+func ZipWriteArchive(r *rand.Rand, entries []ZipArchEntry) ([]byte, error) {
 	var buf bytes.Buffer
 	zw := zip.NewWriter(&buf)
 	for _, e := range entries {
@@ -552,24 +547,24 @@ func WriteArchive(r *rand.Rand, entries []ArchEntry) ([]byte, error) {
 	return buf.Bytes(), nil
 }
 
-// HostileArchive draws the entries of an archive for module m: mostly acceptable names
+// ZipHostileArchive draws the entries of an archive for module m: mostly acceptable names
 // under the right prefix, mixed with "..", absolute names, backslashes, empty names,
 // directory entries, wrong or case-varied prefixes, duplicates, fold variants, misplaced
 // go.mod files and declared sizes that disagree with the content or exceed the limits.
-func HostileArchive(r *rand.Rand, m module.Version) []ArchEntry {
+func ZipHostileArchive(r *rand.Rand, m module.Version) []ZipArchEntry {
 	prefix := m.Path + "@" + m.Version + "/"
 	calm := r.Intn(3) == 0 // an archive that is probably fine
 	n := r.Intn(8)
-	var es []ArchEntry
+	var es []ZipArchEntry
 	for len(es) < n {
 		var name string
 		switch k := r.Intn(100); {
 		case calm || k < 40:
-			name = RelPath(r, false)
+			name = ZipRelPath(r, false)
 		case k < 48 && len(es) > 0:
 			name = strings.TrimPrefix(es[r.Intn(len(es))].Name, prefix) // duplicate
 		case k < 58 && len(es) > 0:
-			name = caseVariant(r, strings.TrimPrefix(es[r.Intn(len(es))].Name, prefix))
+			name = zipCaseVariant(r, strings.TrimPrefix(es[r.Intn(len(es))].Name, prefix))
 		case k < 64 && len(es) > 0: // file/directory clash
 			q := strings.TrimSuffix(strings.TrimPrefix(es[r.Intn(len(es))].Name, prefix), "/")
 			if i := strings.LastIndex(q, "/"); i > 0 && r.Intn(2) == 0 {
@@ -577,14 +572,14 @@ func HostileArchive(r *rand.Rand, m module.Version) []ArchEntry {
 			} else if r.Intn(2) == 0 {
 				name = q + "/"
 			} else {
-				name = q + "/" + PathElem(r, false)
+				name = q + "/" + ZipPathElem(r, false)
 			}
 		case k < 72:
 			name = pick(r, "go.mod", "GO.MOD", "Go.Mod", "a/go.mod", "a/GO.MOD", "LICENSE", "a/LICENSE", "vendor/modules.txt", "go.mod/", "go.mod/x")
 		case k < 80:
 			name = pick(r, "..", "../x", "a/../../x", "/etc/passwd", "/", "//", "a//b", "./a", "a/./b", "a/", "a/b/", "", "a\\b", "..\\x", "a\\..\\..\\x", "C:/x", "c:\\x", "a/..", ".", "a/.", "\x00", "a/\xff", "../"+strings.TrimSuffix(prefix, "/")+"x/y")
 		default:
-			name = RelPath(r, true)
+			name = ZipRelPath(r, true)
 		}
 		if !calm && r.Intn(12) == 0 && !strings.HasSuffix(name, "/") && name != "" {
 			name += "/" // directory entry
@@ -595,7 +590,7 @@ func HostileArchive(r *rand.Rand, m module.Version) []ArchEntry {
 			case 0:
 				pre = "other.org/x@v1.0.0/"
 			case 1:
-				pre = caseVariant(r, prefix)
+				pre = zipCaseVariant(r, prefix)
 			case 2:
 				pre = strings.TrimSuffix(prefix, "/")
 			case 3:
@@ -606,9 +601,9 @@ func HostileArchive(r *rand.Rand, m module.Version) []ArchEntry {
 				pre = prefix + "/"
 			}
 		}
-		e := ArchEntry{Name: pre + name, Content: smallContent(r)}
+		e := ZipArchEntry{Name: pre + name, Content: zipSmallContent(r)}
 		if strings.HasSuffix(name, "go.mod") {
-			e.Content = GoModBody(r)
+			e.Content = ZipGoModBody(r)
 		}
 		e.Declared = uint64(len(e.Content))
 		if strings.HasSuffix(e.Name, "/") {
